@@ -52,6 +52,7 @@ inductive Outcome (α : Type)
   | ok (a : α) (rest : Bytes) (alloc : Nat)
   | err (e : SerErr) (alloc : Nat)
   | panic (s : Site) (alloc : Nat)
+deriving DecidableEq
 
 namespace Outcome
 variable {α β : Type}
